@@ -56,9 +56,218 @@ fn plans_c01(tier: Tier) -> Vec<Plan> {
     v
 }
 
+fn mk(prop: &str, variant: u8, n_clients: u8, topics: &[&str], filters: &[&str]) -> Cfg {
+    let mut c = Cfg::base(prop);
+    c.variant = variant;
+    c.prelude = connect_all(n_clients);
+    c.topics = s(topics);
+    c.filters = s(filters);
+    c
+}
+
+fn plans_c06(tier: Tier) -> Vec<Plan> {
+    let q = tier == Tier::Quick;
+    let mut v = vec![];
+    let mut c = mk("C06", 0, 3, &["a/b"], &["a/b", "a/+"]);
+    c.prelude.push(Act::Sub { c: 2, f: 1, qos: 1 });
+    v.push(Plan { cfg: c.clone(), depth_by_devs: if q { vec![3, 3] } else { vec![5, 4, 4] } });
+    // requests arriving while the connection is inflight-full (c0 subscribed, 101 unacked)
+    let mut c1 = c.clone();
+    c1.variant = 1;
+    c1.prelude.push(Act::Sub { c: 0, f: 0, qos: 1 });
+    c1.prelude.push(Act::Burst { c: 1, t: 0, qos: 0, n: 101 });
+    v.push(Plan { cfg: c1, depth_by_devs: if q { vec![2] } else { vec![3, 3] } });
+    // requests arriving while the connection is paused as busy (stalled link, 250 buffered)
+    let mut c2 = c.clone();
+    c2.variant = 2;
+    c2.prelude.push(Act::Sub { c: 0, f: 0, qos: 0 });
+    c2.prelude.push(Act::Stall { c: 0 });
+    c2.prelude.push(Act::Burst { c: 1, t: 0, qos: 0, n: 250 });
+    v.push(Plan { cfg: c2, depth_by_devs: if q { vec![2] } else { vec![3, 3] } });
+    if !q {
+        let mut c3 = c.clone();
+        c3.v5 = vec![true, false, true, false, false];
+        v.push(Plan { cfg: c3, depth_by_devs: vec![4, 4] });
+    }
+    v
+}
+
+fn plans_c08(tier: Tier) -> Vec<Plan> {
+    let q = tier == Tier::Quick;
+    let mut v = vec![];
+    let mut c = mk("C08", 0, 1, &["a/b", "x/y"], &["a/b", "x/+"]);
+    c.prelude.push(Act::Connect { c: 2, clean: false, will: 0 });
+    v.push(Plan { cfg: c.clone(), depth_by_devs: if q { vec![6, 4] } else { vec![9, 7, 6] } });
+    let mut c1 = c.clone();
+    c1.variant = 1;
+    c1.topics = s(&["a/b"]);
+    c1.filters = s(&["a/b"]);
+    c1.manual = false;
+    v.push(Plan { cfg: c1, depth_by_devs: if q { vec![7] } else { vec![10] } });
+    let mut c2 = c.clone();
+    c2.variant = 2;
+    v.push(Plan { cfg: c2, depth_by_devs: if q { vec![5] } else { vec![8, 6] } });
+    if !q {
+        let mut c3 = c.clone();
+        c3.seg_size = 1024;
+        c3.seg_count = 3;
+        v.push(Plan { cfg: c3, depth_by_devs: vec![7, 5] });
+        let mut c4 = c.clone();
+        c4.v5 = vec![true, false, true, false, false];
+        v.push(Plan { cfg: c4, depth_by_devs: vec![7, 5] });
+    }
+    v
+}
+
+fn plans_c09(tier: Tier) -> Vec<Plan> {
+    let q = tier == Tier::Quick;
+    let mut v = vec![];
+    let c = mk("C09", 0, 3, &["a/b", "a/c"], &["a/b", "a/+"]);
+    v.push(Plan { cfg: c.clone(), depth_by_devs: if q { vec![4] } else { vec![6, 5] } });
+    let mut c1 = c.clone();
+    c1.variant = 1;
+    c1.topics = s(&["a/b"]);
+    c1.filters = s(&["a/b"]);
+    v.push(Plan { cfg: c1, depth_by_devs: if q { vec![5] } else { vec![8, 6] } });
+    let mut c2 = c.clone();
+    c2.variant = 2;
+    c2.topics = s(&["a/b"]);
+    c2.filters = s(&["a/b"]);
+    v.push(Plan { cfg: c2, depth_by_devs: if q { vec![4, 4] } else { vec![6, 6, 6] } });
+    v
+}
+
+fn plans_c14(tier: Tier) -> Vec<Plan> {
+    let q = tier == Tier::Quick;
+    let mut v = vec![];
+    let mut c = mk("C14", 0, 3, &["w"], &["w"]);
+    c.prelude.push(Act::Sub { c: 1, f: 0, qos: 1 });
+    v.push(Plan { cfg: c.clone(), depth_by_devs: if q { vec![5, 4] } else { vec![8, 6, 5] } });
+    let mut c1 = c.clone();
+    c1.variant = 1;
+    c1.prelude[2] = Act::Connect { c: 2, clean: false, will: 0 };
+    v.push(Plan { cfg: c1, depth_by_devs: if q { vec![5] } else { vec![8, 6] } });
+    let mut c2 = c.clone();
+    c2.variant = 2;
+    v.push(Plan { cfg: c2, depth_by_devs: if q { vec![4] } else { vec![6, 5] } });
+    v
+}
+
+fn plans_c15(tier: Tier) -> Vec<Plan> {
+    let q = tier == Tier::Quick;
+    let mut v = vec![];
+    let mut c = mk("C15", 0, 4, &["r/a", "r/b", "x"], &["r/a", "r/+", "#", "$share/g/r/a"]);
+    // the statement quantifies over histories and inputs; which retained value a
+    // subscription racing with a retained publish sees is not specified
+    c.manual = false;
+    for desc in [false, true] {
+        let mut d = c.clone();
+        d.order_desc = desc;
+        v.push(Plan { cfg: d, depth_by_devs: if q { vec![3] } else { vec![5, 4] } });
+    }
+    let mut c1 = c.clone();
+    c1.variant = 1;
+    c1.topics = s(&["r/a", "r/b"]);
+    c1.filters = s(&["r/+", "r/a"]);
+    v.push(Plan { cfg: c1, depth_by_devs: if q { vec![4] } else { vec![6, 5] } });
+    v
+}
+
+fn plans_c16(tier: Tier) -> Vec<Plan> {
+    let q = tier == Tier::Quick;
+    let mut v = vec![];
+    for variant in 0..3u8 {
+        let mut c = mk("C16", variant, 0, &["w", "t"], &["w", "#"]);
+        c.prelude = vec![
+            Act::Connect { c: 2, clean: true, will: 0 },
+            Act::Connect { c: 3, clean: true, will: 0 },
+            Act::Sub { c: 2, f: 0, qos: 1 },
+        ];
+        v.push(Plan { cfg: c, depth_by_devs: if q { vec![4, 4] } else { vec![6, 5] } });
+        if q && variant == 1 {
+            break;
+        }
+    }
+    v
+}
+
+fn plans_c17(tier: Tier) -> Vec<Plan> {
+    let q = tier == Tier::Quick;
+    let mut v = vec![];
+    for strategy in 0..3u8 {
+        let mut c = mk("C17", 0, 4, &["t"], &["$share/g/t", "u/+"]);
+        c.strategy = strategy;
+        v.push(Plan { cfg: c, depth_by_devs: if q { vec![4] } else { vec![6, 5] } });
+    }
+    let mut c1 = mk("C17", 1, 4, &["t"], &["$share/g/t"]);
+    c1.strategy = 0;
+    v.push(Plan { cfg: c1.clone(), depth_by_devs: if q { vec![5] } else { vec![7, 6] } });
+    let mut c2 = mk("C17", 2, 3, &["t"], &["$share/g/t"]);
+    c2.strategy = 0;
+    v.push(Plan { cfg: c2, depth_by_devs: if q { vec![4] } else { vec![6] } });
+    if !q {
+        c1.strategy = 2;
+        v.push(Plan { cfg: c1, depth_by_devs: vec![6, 5] });
+    }
+    v
+}
+
+fn plans_c03(tier: Tier) -> Vec<Plan> {
+    let q = tier == Tier::Quick;
+    let mut v = vec![];
+    for variant in 0..3u8 {
+        let mut c = mk("C03", variant, 0, &["a/b", "é/b"], &["a/+", "$share/g/a/b", "#"]);
+        c.v5 = vec![false, true, false, false, false];
+        c.prelude = vec![];
+        v.push(Plan { cfg: c, depth_by_devs: if q { vec![3] } else { vec![5, 4] } });
+    }
+    v
+}
+
+fn plans_c20(tier: Tier) -> Vec<Plan> {
+    let q = tier == Tier::Quick;
+    let mut v = vec![];
+    for pub_v5 in [true, false] {
+        let mut c = mk("C20", 0, 4, &["t"], &["t"]);
+        c.v5 = vec![pub_v5, false, false, true, false];
+        c.prelude.push(Act::Sub { c: 2, f: 0, qos: 1 });
+        c.prelude.push(Act::Sub { c: 3, f: 0, qos: 2 });
+        v.push(Plan { cfg: c.clone(), depth_by_devs: vec![if q { 3 } else { 5 }] });
+        if !q {
+            // broker-side topic aliases towards the v5 subscriber, retained replays
+            let mut d = c.clone();
+            d.variant = 100;
+            v.push(Plan { cfg: d, depth_by_devs: vec![5, 4] });
+        }
+    }
+    v
+}
+
+fn plans_c19(tier: Tier) -> Vec<Plan> {
+    let q = tier == Tier::Quick;
+    let mut v = vec![];
+    for max in 1..=3usize {
+        let mut c = mk("C19", 0, 0, &[], &[]);
+        c.max_conn = max;
+        c.prelude = vec![];
+        v.push(Plan { cfg: c, depth_by_devs: if q { vec![5] } else { vec![7, 6] } });
+    }
+    v
+}
+
 fn plans(prop: &str, tier: Tier) -> Vec<Plan> {
     match prop {
         "C01" => plans_c01(tier),
+        "C03" => plans_c03(tier),
+        "C06" => plans_c06(tier),
+        "C08" => plans_c08(tier),
+        "C09" => plans_c09(tier),
+        "C14" => plans_c14(tier),
+        "C15" => plans_c15(tier),
+        "C16" => plans_c16(tier),
+        "C17" => plans_c17(tier),
+        "C19" => plans_c19(tier),
+        "C20" => plans_c20(tier),
         _ => vec![],
     }
 }
